@@ -342,14 +342,19 @@ func c06ScaleCheck(c *C06Case) []ev.Discrepancy {
 	var ds []ev.Discrepancy
 	var t1, t4 time.Duration
 	ds = append(ds, guarded("scaling run", len(big)*8, func() {
-		t1 = minCPU(3, work(small))
-		t4 = minCPU(3, work(big))
+		t1 = minCPU(5, work(small))
+		t4 = minCPU(5, work(big))
 	})...)
 	if len(ds) > 0 {
 		return ds
 	}
+	if surveyOn() {
+		fmt.Printf("SCALE %-40.40q k=%-5d t1=%-12v t4=%-12v x%.1f\n", c.ScaleUnit, c.ScaleK, t1, t4, float64(t4)/float64(max(t1, 1)))
+	}
 	// linear growth is x4, quadratic x16; the verdict needs a measurable base
-	if t1 >= 4*time.Millisecond && t4 > 10*t1 {
+	// (a base of a few milliseconds is dominated by allocation and collection noise: the larger run must
+	// itself be substantial for the ratio to mean anything)
+	if t1 >= 4*time.Millisecond && t4 > 10*t1 && t4 >= 60*time.Millisecond {
 		ds = append(ds, ev.D("c06.scaling", "unit %q repeated %d times (%d bytes) costs %v of CPU, repeated %d times (%d bytes) %v: x%.1f for x4 input (linear = 4, quadratic = 16)", c.ScaleUnit+c.ScaleSep, c.ScaleK, len(small), t1, 4*c.ScaleK, len(big), t4, float64(t4)/float64(t1)))
 	}
 	return ds
